@@ -645,44 +645,44 @@ func Main(run *hx.Run) {
 	for _, comp := range Comps {
 		r := run.R.Fork(comp)
 		// small universes, every hash function
-		for k, n := 0, run.Scale(60); k < n; k++ {
+		for k, n := 0, run.Scale(200); k < n; k++ {
 			hname := Hashes[k%len(Hashes)]
 			c := hx.Case{Header: Header(r, comp, hname), Ops: genMixed(r, r.Range(10, 120), r.Range(3, 40))}
 			run.Do(comp, c, Exec)
 		}
 		// dense collisions with many keys: the probe walks get long, tombstones accumulate
-		for k, n := 0, run.Scale(12); k < n; k++ {
+		for k, n := 0, run.Scale(40); k < n; k++ {
 			hname := []string{"const", "mod3", "modm"}[k%3]
 			c := hx.Case{Header: Header(r, comp, hname), Ops: genMixed(r, r.Range(100, 400), r.Range(20, 120))}
 			run.Do(comp, c, Exec)
 		}
 		// growth / shrink sweeps across the resize boundaries
-		for k, n := 0, run.Scale(6); k < n; k++ {
+		for k, n := 0, run.Scale(16); k < n; k++ {
 			peak := r.Range(40, 300)
-			if run.Thorough() && k%4 == 0 {
+			if run.Thorough() && k%16 == 0 {
 				peak = r.Range(1100, 2300) // m reaches 2^12
 			}
 			c := hx.Case{Header: Header(r, comp, Hashes[r.Intn(len(Hashes))]), Ops: genSweep(r, peak)}
 			run.Do(comp, c, Exec)
 		}
 		// churn
-		for k, n := 0, run.Scale(6); k < n; k++ {
+		for k, n := 0, run.Scale(16); k < n; k++ {
 			c := hx.Case{Header: Header(r, comp, Hashes[r.Intn(len(Hashes))]), Ops: GenChurn(r, r.Intn(12), r.Range(20, 150), false)}
 			run.Do(comp, c, Exec)
 		}
 	}
 	if run.Thorough() {
-		// every history of 6 put/delete operations over 4 keys, per implementation and hash function
+		// every history of 5 put/delete operations over 4 keys, per implementation and hash function
 		// (each op line carries the state digest, so every shorter history is covered as a prefix)
 		alpha := []string{"put 0 1", "put 1 2", "put 2 3", "put 35 4", "delete 0", "delete 1", "delete 2", "delete 35"}
 		for _, comp := range Comps {
 			for _, hname := range []string{"const", "mod3", "id"} {
-				exhaustive(alpha, 6, func(ops []string) {
+				exhaustive(alpha, 5, func(ops []string) {
 					run.Do(comp, hx.Case{Header: fmt.Sprintf("comp=%s hash=%s cap=0 shuffle=0", comp, hname),
 						Ops: append(ops, "size", "all")}, Exec)
 				})
 			}
 		}
-		run.Stats.Extra["exhaustive_part"] = "all 8^6 histories of put/delete over keys {0,1,2,35} x 4 implementations x {const, mod3, id}"
+		run.Stats.Extra["exhaustive_part"] = "all 8^5 histories of put/delete over keys {0,1,2,35} x 4 implementations x {const, mod3, id}"
 	}
 }
